@@ -54,4 +54,10 @@ CLAIMED['C06'] = dict(
     technique='CrossHair-engine symbolic execution of Exporter.export_string/append_row with symbolic membership containers for spine_ids and spine_types over z3-enumerated layouts',
     design='5 C06')
 
+CLAIMED['C05'] = dict(
+    text=BMC + 'C05: the selected-category set handed to the exporter is a SYMBOLIC container (37 symbolic booleans), so Exporter.export_string/append_row/NoteRestToken.export are executed for ALL 2^37 selections per document (the path tree forks only on categories the document asks about) and compared with the oracle filter of an independent cell model; the public include/exclude keywords are checked end to end for None, every single category and every pair (three argument styles) against the closure of the documented tree; the closure algebra for arbitrary sets is C11.c (SMT).',
+    note=NOTE + 'Documents are the 7 mini documents of the evidence (position independence of the per-cell gate is C13.c); null placeholders compare equal whatever character is used.',
+    technique='CrossHair-engine symbolic execution of the exporter with a symbolic category container (all 2^37 selections) + z3-enumerated include/exclude selections, composed with C11 SMT lemma',
+    design='5 C05')
+
 PENDING_REASON = 'check under construction in this session (to be claimed; see DESIGN.md section 5)'
